@@ -165,7 +165,7 @@ Lemma inner_ex x fuel : forall j i base c d tr,
 Proof.
   induction fuel as [|f IH]; intros j i base c d tr Hc Hd Hj Hi Hb Hbm Hf.
   - simpl. exists (Some (c, d)), tr. split; [reflexivity|split; assumption].
-  - simpl.
+  - cbn [inner].
     destruct (rd_ex c (j + 1)) as (cj1 & ->); [lia|].
     destruct (rd_ex d j) as (dj & ->); [lia|].
     rewrite (rdx (base + j)) by lia. rewrite (rdx (base + i + j + 1)) by lia.
@@ -186,7 +186,7 @@ Lemma outer_ex x fuel : forall i base c d y cur tr,
 Proof.
   induction fuel as [|f IH]; intros i base c d y cur tr Hc Hd Hi Hb Hbm Hf Hc1 Hc2.
   - simpl. eexists; reflexivity.
-  - simpl.
+  - cbn [outer].
     destruct (inner_ex x (Z.to_nat (m - i - 1)) 0 i base c d tr) as (r & tr' & -> & Hr); try lia.
     destruct r as [[c' d']|]; [|eexists; reflexivity].
     destruct Hr as [Lc Ld].
@@ -361,13 +361,13 @@ Lemma after_seg_indep x h1 h2 s1 s2 : seg_ok x s1 -> seg_ok x s2 ->
 Proof.
   intros H1 H2.
   destruct (Z.lt_trichotomy s1 s2) as [L|[E|G]].
-  - destruct (seg_ok_two x s1 s2 H1 H2 L) as [-> ->]. destruct H1 as (R1 & _).
+  - destruct (seg_ok_two x s1 s2 H1 H2 L) as [-> ->]. destruct H1 as (R1 & _). destruct H2 as (R2 & _).
     unfold after. rewrite knot_test_right by lia. rewrite knot_test_left by lia. reflexivity.
   - subst s2. unfold after. destruct (knot_test eps xp yp m x s1) as [[y|nr]|]; try reflexivity.
     destruct (_ && _); [|reflexivity].
     destruct (take_y _ _ _); [|reflexivity]. destruct (rd yp _); [|reflexivity].
     destruct (outer _ _ _ _ _ _ _ _ _ _ _ _); reflexivity.
-  - destruct (seg_ok_two x s2 s1 H2 H1 ltac:(lia)) as [-> ->]. destruct H2 as (R2 & _).
+  - destruct (seg_ok_two x s2 s1 H2 H1 ltac:(lia)) as [-> ->]. destruct H2 as (R2 & _). destruct H1 as (R1 & _).
     unfold after. rewrite knot_test_right by lia. rewrite knot_test_left by lia. reflexivity.
 Qed.
 
